@@ -48,6 +48,13 @@ impl Notification {
         if self.has_been_notified() {
             return;
         }
+        #[cfg(feature = "verif-hooks")]
+        if crate::verif::in_sim() {
+            crate::verif::block_until(crate::verif::site::NOTIFICATION, || {
+                self.has_been_notified()
+            });
+            return;
+        }
         let mut lock = self.mutex.lock().unwrap();
         while !self.has_been_notified() {
             lock = self.cv.wait(lock).unwrap();
